@@ -24,14 +24,22 @@ Qed.
 
 Definition ROW : list N := [114; 111; 119].
 (** the reader of the repaired tree: startswith('row'), int(name[3:]) *)
-Definition pinned_rowreader : rowreader := mk_rowreader ROW 3 1 None.
+Definition pinned_rowreader : rowreader := mk_rowreader ROW 3 1 None None.
 Theorem pinned_rowreader_ok : rows_recognised pinned_rowreader ROW 17 = true.
 Proof. vm_compute. reflexivity. Qed.
 (** a reader that accepts a single digit only cannot see row10..row16 of a power-4 displacement *)
-Definition one_digit_rowreader : rowreader := mk_rowreader ROW 3 1 (Some 1%nat).
+Definition one_digit_rowreader : rowreader := mk_rowreader ROW 3 1 (Some 1%nat) None.
 Theorem one_digit_rowreader_refuted :
   rows_recognised one_digit_rowreader ROW 17 = false /\ read_row one_digit_rowreader (row_key ROW 10) = None
   /\ rows_recognised one_digit_rowreader ROW 9 = true.
+Proof. vm_compute. repeat split. Qed.
+
+(** a reader that looks keys up in a table of 2**4 names does not know row16, the last row of a power-4 displacement
+    (17 rows); powers 1..3 (3, 5, 9 rows) are unaffected *)
+Definition table16_rowreader : rowreader := mk_rowreader ROW 3 1 None (Some 16).
+Theorem table16_rowreader_refuted :
+  rows_recognised table16_rowreader ROW 17 = false /\ read_row table16_rowreader (row_key ROW 16) = None
+  /\ rows_recognised table16_rowreader ROW 16 = true /\ rows_recognised table16_rowreader ROW 9 = true.
 Proof. vm_compute. repeat split. Qed.
 
 (** * split / join *)
